@@ -104,10 +104,26 @@ func parent(r *vlib.Run) {
 	r.Require("engine_udp_drop_full", 1)             // ingress shedding happened …
 	r.Require("engine_tcp_drop_conncap", 1)
 	r.Require("drops_accounted", 2)                  // … and was accounted
+	r.Require("udp_shed_accounted", 20)              // unanswered UDP queries matched against the engine's drop counters
+	r.Require("tcp_shed_connections_accounted", 20)  // refused TCP connections matched, per connection, against conncap/jobwait
+	r.Require("tcp_queries_never_admitted", 20)
+	r.Require("tc_then_tcp_fallbacks", 20)           // upstream TC=1 followed by the resolver's TCP retry
+	r.Require("upstream/udp/drop", 50)
+	r.Require("upstream/udp/delay-long", 20)
+	r.Require("upstream/udp/malformed", 10)
+	r.Require("upstream/udp/wrong-id", 10)
+	r.Require("upstream/udp/wrong-question", 10)
+	r.Require("upstream/udp/servfail", 10)
+	r.Require("upstream/udp/refused", 10)
+	r.Require("upstream/tcp/tcp-stall", 3)
+	r.Require("upstream/tcp/tcp-reset", 3)
+	r.Require("pattern/control", 40*nScripts)        // the always-answerable control client ran beside every script
 	r.Require("junk_counted_by_server", 4)
 	r.Require("quiescence_reached", nScripts)
 	r.Require("goroutines_back_to_baseline", nScripts)
 	r.Require("isolation_followers_recovered", 1)
+	r.Require("isolation_leader_expired", 4)         // the deterministic querytimeout path: slow referrals + black-holed leaf
+	r.Require("isolation_followers_in_flight_at_leader_expiry", 8)
 	r.Note("config", map[string]any{"querytimeout_ms": queryTimeout.Milliseconds(), "upstream_timeout_ms": upstreamTimeout.Milliseconds(), "margin_ms": baseMargin.Milliseconds()})
 }
 
